@@ -1,6 +1,6 @@
 SPECIFICATION Spec
 CONSTANTS
-  Tables <- MCTables
+  Tables <- MCTablesH
   Bytes <- MCBytesH
   MaxBytes = 5
   MaxLines = 1
